@@ -10,12 +10,38 @@ OpenMDAO's internal COO format.
 from pprint import pformat
 
 import numpy as np
-from numpy import bincount, isscalar
+from numpy import isscalar
 from scipy.sparse import coo_matrix, csr_matrix, csc_matrix, issparse
 
 from openmdao.utils.indexer import idx_list_to_index_array
 
 # from openmdao.devtools.debug import DebugDict
+
+
+def bincount(x, weights, minlength=0):
+    """
+    Sum the weights of each bin like numpy.bincount, also for complex weights.
+
+    numpy.bincount only accepts real weights, but under complex step the linear vectors and
+    the subjacobian values are complex.
+
+    Parameters
+    ----------
+    x : ndarray of int
+        Bin index of each weight.
+    weights : ndarray
+        Real or complex weights.
+    minlength : int
+        Minimum number of bins in the result.
+
+    Returns
+    -------
+    ndarray
+        Sum of the weights for each bin.
+    """
+    if np.iscomplexobj(weights):
+        return np.bincount(x, weights.real, minlength) + 1j * np.bincount(x, weights.imag, minlength)
+    return np.bincount(x, weights, minlength)
 
 
 class Subjac(object):
